@@ -1,0 +1,73 @@
+//! Read-only accessors for the external verification harness (`/verif`).
+//! Compiled only with the cargo feature `verif_hooks`; nothing here changes behaviour.
+use crate::math::float_lt;
+use crate::parser::model_transformer::{Constraint, DomainVariable, Exp};
+use crate::transformers::bounds::BoundsAnalyzer;
+use crate::transformers::standard_linear_model::StandardLinearModel;
+use indexmap::IndexMap;
+
+/// Result of the private bound propagation (`transformers::bounds`).
+pub struct BoundsReport {
+    /// `(name, lower, upper)` for every variable of the domain, in domain order
+    pub variables: Vec<(String, f64, f64)>,
+    /// `bounds_of` of each requested expression after propagation
+    pub expressions: Vec<(f64, f64)>,
+    /// the domain after `apply_to_domain`
+    pub domain: IndexMap<String, DomainVariable>,
+}
+
+/// Runs `BoundsAnalyzer::analyze`, `bounds_of` and `apply_to_domain` exactly as the linearizer does.
+pub fn analyze_bounds(
+    domain: &IndexMap<String, DomainVariable>,
+    constraints: &[Constraint],
+    expressions: &[Exp],
+) -> BoundsReport {
+    let analyzer = BoundsAnalyzer::analyze(domain, constraints);
+    let variables = domain
+        .keys()
+        .map(|name| {
+            let b = analyzer.bounds_of(&Exp::Variable(name.clone()));
+            (name.clone(), b.lower, b.upper)
+        })
+        .collect();
+    let expressions = expressions
+        .iter()
+        .map(|e| {
+            let b = analyzer.bounds_of(e);
+            (b.lower, b.upper)
+        })
+        .collect();
+    let mut tightened = domain.clone();
+    analyzer.apply_to_domain(&mut tightened);
+    BoundsReport {
+        variables,
+        expressions,
+        domain: tightened,
+    }
+}
+
+/// `float_lt(a, b)` of `math_utils` (crate-private there).
+pub fn float_lt_hook(a: f64, b: f64) -> bool {
+    float_lt(a, b)
+}
+
+/// Native read access to a standard-form model (the existing getters are wasm-only).
+pub struct StandardView {
+    pub variables: Vec<String>,
+    pub objective: Vec<f64>,
+    pub objective_offset: f64,
+    pub flip_objective: bool,
+    /// `(coefficients, rhs)` per equality row
+    pub rows: Vec<(Vec<f64>, f64)>,
+}
+
+pub fn standard_view(model: &StandardLinearModel) -> StandardView {
+    let (variables, objective, objective_offset, flip_objective, rows) = model.verif_parts();
+    StandardView {
+        variables,
+        objective,
+        objective_offset,
+        flip_objective,
+        rows,
+    }
+}
